@@ -7,7 +7,7 @@
  * Every case goes through is_{822,5321,5322,6531}_email with tld_check off and on, and the bracket
  * content through the public part validators on a stand-alone NUL-terminated copy.
  */
-#include "../mc/mc.h"
+#include "corpus.h"
 #include "../ref/ref_domain.h"
 #include <eav.h>
 
@@ -203,6 +203,9 @@ static void byte_shard(long shard, void *arg) {
     }
 }
 
+static void l5_emit(const unsigned char *s, size_t n, void *arg) { (void)arg; if (n > 2 && s[0] == 'x' && s[1] == '@') { check_dpart("maxlit", s + 2, n - 2); MC_ADD(C_BYTE, 1); } }
+static void l5_shard(long shard, void *arg) { (void)arg; corpus_run(CP_MAXLIT, shard, l5_emit, NULL); }
+
 static int do_replay(void) {
     mc_replay_t r; if (mc_load_replay(mc_replay, &r)) return 2;
     mc_replay_hit = 0;
@@ -220,6 +223,7 @@ int main(int argc, char **argv) {
     mc_parallel("v4: 18^4 octet spellings, every value 0..300 in every position, 3/5 octets, stray dots", NOCT + 1, v4_shard, NULL);
     mc_parallel("v6: groups before/after '::' 0..8, widths 0..5 at every index, 6 tails, 8 tags, stray colons", 9 * 9 * 2, v6_shard, NULL);
     mc_parallel("byte: every byte before/after each bracket, at every content position; 1-2 tokens after ']'", 5, byte_shard, NULL);
+    mc_parallel("maxlit: maximal-length valid literals + junk inside / after the brackets, every proper prefix", corpus_shards(CP_MAXLIT), l5_shard, NULL);
     int nraw = mc_thorough ? 8 : 6, nin = mc_thorough ? 9 : 7;
     memset(&ERAW, 0, sizeof ERAW); ERAW.A = SIGRAW; ERAW.nA = 10; ERAW.N = nraw; ERAW.k = 3; ERAW.fn = raw_cb;
     memset(&EIN, 0, sizeof EIN); EIN.A = SIGIN; EIN.nA = 9; EIN.N = nin; EIN.k = 3; EIN.fn = in_cb;
